@@ -85,11 +85,16 @@ class Cx:
             return {"empty-fh-object": lambda: ForecastingHorizon([]), "empty-array": lambda: np.array([], dtype=int), "empty-index": lambda: pd.Index([], dtype="int64"),
                     "empty-abs-fh-object": lambda: ForecastingHorizon(pd.Index([], dtype="int64"), is_relative=False)}[cls]()
         return {"dup": [1, 2, 2], "empty": [], "frac": [1.5, 2.0], "str": "ab", "tuple": (1, 2), "set": {1, 2}, "nan": [float("nan"), 1.0],
-                "dup-array": np.array([3, 3]), "2d": np.array([[1, 2], [3, 4]])}[cls]
+                "dup-array": np.array([3, 3]), "2d": np.array([[1, 2], [3, 4]]), "dup-index-sorted": pd_index([1, 2, 2]), "dup-index-constant": pd_index([2, 2])}[cls]
 
 
 Y_CLASSES = ["unsorted", "empty", "dataframe", "ndarray", "list"]
-FH_CLASSES = ["dup", "empty", "frac", "str", "tuple", "set", "dup-array", "empty-fh-object", "empty-abs-fh-object", "empty-array", "empty-index"]
+FH_CLASSES = ["dup", "empty", "frac", "str", "tuple", "set", "dup-array", "empty-fh-object", "empty-abs-fh-object", "empty-array", "empty-index", "dup-index-sorted", "dup-index-constant"]
+
+
+def pd_index(v):
+    import pandas as pd
+    return pd.Index(v, dtype="int64")
 
 FORECASTERS = {
     "naive": ["naive", {"strategy": "mean", "window_length": 4}],
@@ -417,7 +422,7 @@ for _s in ("recursive", "direct", "multioutput", "dirrec"):
 for _s in ("sliding", "expanding", "sliding-initial"):
     _add("setting:splitter:window-does-not-fit:%s" % _s, _setting_cell("window-does-not-fit", None, _s))
 for _k in ("sliding", "expanding", "single", "cutoff"):
-    for _c in ("dup", "empty", "frac", "str", "tuple", "empty-fh-object", "empty-array"):
+    for _c in ("dup", "empty", "frac", "str", "tuple", "empty-fh-object", "empty-array", "dup-index-sorted"):
         _add("setting:%s:fh:%s" % (_k, _c), (lambda k, c: (lambda cx: _setting_cell(k, "fh", cx.bad_fh(c))(cx)))(_k, _c))
 _add("setting:cutoff:cutoffs:list", _setting_cell("cutoff", "cutoffs", [8, 12]))
 _add("setting:cutoff:cutoffs:empty", _setting_cell("cutoff", "cutoffs", np.array([], dtype=int)))
@@ -430,9 +435,9 @@ for _d in ("ensemble:empty", "ensemble:dup-names", "ensemble:dunder-name", "ense
     _add("composite:" + _d, _composite_cell(_d))
 for _d in ["y:" + c for c in Y_CLASSES] + ["strategy", "cv-not-splitter", "scoring-not-callable", "start_with_window-false", "X-index", "X-index:longer", "X-index:longer-front", "X-index:shorter"]:
     _add("evaluate:" + _d, _evaluate_cell(_d))
-for _d in ["y:" + c for c in Y_CLASSES if c != "dataframe"] + ["fh-and-test_size", "fh-in-sample", "X-index", "X-index:longer", "X-index:longer-front", "X-index:shorter"] + ["fh:" + c for c in ("dup", "empty", "frac", "str", "tuple", "empty-fh-object", "empty-abs-fh-object", "empty-array")]:
+for _d in ["y:" + c for c in Y_CLASSES if c != "dataframe"] + ["fh-and-test_size", "fh-in-sample", "X-index", "X-index:longer", "X-index:longer-front", "X-index:shorter"] + ["fh:" + c for c in ("dup", "empty", "frac", "str", "tuple", "empty-fh-object", "empty-abs-fh-object", "empty-array", "dup-index-sorted")]:
     _add("train_test_split:" + _d, _tts_cell(_d))
-for _c in ("dup", "empty", "frac", "str", "tuple", "set", "dup-array", "2d", "nan", "empty-fh-object", "empty-abs-fh-object", "empty-array", "empty-index"):
+for _c in ("dup", "empty", "frac", "str", "tuple", "set", "dup-array", "2d", "nan", "empty-fh-object", "empty-abs-fh-object", "empty-array", "empty-index", "dup-index-sorted", "dup-index-constant"):
     _add("horizon:" + _c, _fhctor_cell(_c))
 for _d in ["y:" + c for c in Y_CLASSES] + ["grid-scalar", "grid-unknown-param", "scoring-not-callable"]:
     _add("tune:" + _d, _tune_cell(_d))
